@@ -1,4 +1,161 @@
-import PoetryVerif.Model.MarkerOps
+/-
+C17 — Marker projections only ever weaken; reduction by a Python range is exact.
+Property theorems only (helper lemmas in Proofs/MarkerProj.lean).
+
+Vocabulary.  `M.sem ev m` is the truth of the marker tree `m` when `ev` gives the truth of its
+single-marker-likes (`any` ↦ true, `empty` ↦ false, `multi` ↦ all, `union` ↦ any); `evalLeaf E` is that
+leaf truth taken from poetry's own `validate` on the environment `E`, and `validate_eq_sem` shows
+`M.validate E m = .ok (M.sem (evalLeaf E) m)` whenever every leaf of `m` evaluates on `E`.
+`M.vars m` lists the variable names at the leaves.
+
+Staging.  `only`, `exclude`, `reduce_by_python_constraint` rebuild their result with `MultiMarker.of`,
+`MarkerUnion.of`, `intersection`, `intersect`; what these four do to truth and to the variables mentioned is
+C07's subject.  The theorems below are proved by structural induction over the projection functions
+themselves and take the simplifier facts as explicit hypotheses (`OfSound`, `OfVars`, `InterSound`,
+`ReduceCtx`), each stated for every fuel and recursion stack; the statements without those hypotheses are
+kept as `C17_…_full_statement`.
+-/
+import PoetryVerif.Proofs.MarkerProj
+
+set_option linter.unusedSimpArgs false
+set_option linter.unusedVariables false
+
 namespace Poetry.C17
-theorem placeholder_to_be_replaced : True := trivial
+open Poetry Poetry.Marker
+
+/-- leaf truth from poetry's own evaluation (`SingleMarkerLike.validate`); a leaf whose evaluation raises
+counts as not established — the theorems that use `evalLeaf` assume every leaf evaluates (`Evaluates`) -/
+def evalLeaf (E : Env) (l : Leaf) : Bool :=
+  match l.validate E with
+  | .ok true => true
+  | _ => false
+
+/-- every single-marker-like of `m` evaluates on `E` (no exception) -/
+def Evaluates (E : Env) (m : M) : Prop := ∀ l ∈ M.leaves m, ∃ b, l.validate E = .ok b
+
+theorem validate_eq (E : Env) (m : M) (h : Evaluates E m) :
+    M.validate E m = .ok (M.sem (evalLeaf E) m) := by
+  apply validate_eq_sem
+  intro l hl
+  obtain ⟨b, hb⟩ := h l hl
+  cases b <;> simp [evalLeaf, hb]
+
+/-- C07: `MultiMarker.of` is a conjunction, `MarkerUnion.of` a disjunction (every fuel, every stack) -/
+def OfSound (ev : Leaf → Bool) : Prop :=
+  (∀ fuel stk ms r, multiOf fuel stk ms = .ok r → M.sem ev r = M.semAll ev ms) ∧
+  (∀ fuel stk ms r, unionOf fuel stk ms = .ok r → M.sem ev r = M.semAny ev ms)
+
+/-- `MultiMarker.of` / `MarkerUnion.of` mention no variable that their operands do not mention -/
+def OfVars : Prop :=
+  (∀ fuel stk ms r, multiOf fuel stk ms = .ok r → ∀ n ∈ M.vars r, n ∈ M.varsList ms) ∧
+  (∀ fuel stk ms r, unionOf fuel stk ms = .ok r → ∀ n ∈ M.vars r, n ∈ M.varsList ms)
+
+/-- C07: `intersection(*markers)` is a conjunction -/
+def InterSound (ev : Leaf → Bool) : Prop :=
+  ∀ fuel stk ms r, intersectionF fuel stk ms = .ok r → M.sem ev r = M.semAll ev ms
+
+/-! ## example objects -/
+
+def v38 : Version := ⟨0, [3, 8], none, none, none, none, "3.8"⟩
+/-- `python_version >= "3.8"` -/
+def lPy : Leaf := .single ⟨"python_version", ">=", "3.8", false, .ver (.single (.rng ⟨some v38, none, true, false⟩))⟩
+/-- `sys_platform == "linux"` -/
+def lSys : Leaf := .single ⟨"sys_platform", "==", "linux", false, .gen (.s (.atom ⟨"linux", .eq, false⟩))⟩
+/-- `extra == "docs"` -/
+def lExtra : Leaf := .single ⟨"extra", "==", "docs", false, .gen (.s (.atom ⟨"docs", .eq, false⟩))⟩
+/-- CPython 3.9.1 on win32, extras {docs} -/
+def exEnv : Env :=
+  ⟨[("python_version", "3.9"), ("python_full_version", "3.9.1"), ("sys_platform", "win32")], some ["docs"]⟩
+
+/-! ## `only` -/
+
+/-- **`only` mentions only the requested variables** (given that the two `of` constructors mention no new
+variable). -/
+theorem only_mentions_partial (hV : OfVars) (S : List String) (m r : M) (h : M.only S m = .ok r) :
+    ∀ n ∈ M.vars r, n ∈ S :=
+  only_mentions_aux S hV.1 hV.2 m r h
+
+/-- **`only` only weakens**: wherever the marker holds, its projection holds — for conjunctions *and*
+disjunctions, foreign leaves being replaced by the universal marker (given C07's `of` soundness). -/
+theorem only_weakens_partial (ev : Leaf → Bool) (hS : OfSound ev) (S : List String) (m r : M)
+    (h : M.only S m = .ok r) (hm : M.sem ev m = true) : M.sem ev r = true :=
+  only_weakens_aux ev S hS.1 hS.2 m r h hm
+
+/-- the same through poetry's own `validate`, on an environment where the leaves evaluate -/
+theorem only_weakens_validate_partial (E : Env) (hS : OfSound (evalLeaf E)) (S : List String) (m r : M)
+    (h : M.only S m = .ok r) (hem : Evaluates E m) (her : Evaluates E r)
+    (hm : M.validate E m = .ok true) : M.validate E r = .ok true := by
+  rw [validate_eq E m hem] at hm
+  rw [validate_eq E r her]
+  injection hm with hm
+  rw [only_weakens_partial (evalLeaf E) hS S m r h hm]
+
+/-- a foreign leaf becomes the universal marker: strictly weaker on `exEnv`, where `sys_platform == "linux"`
+is false; a requested leaf is kept -/
+example : M.only ["python_version"] (.leaf lSys) = .ok .any ∧ M.only ["python_version"] (.leaf lPy) = .ok (.leaf lPy) ∧
+    M.onlyList ["python_version"] [.leaf lPy, .leaf lSys] = .ok [.leaf lPy, .any] ∧
+    lSys.validate exEnv = .ok false ∧ lPy.validate exEnv = .ok true ∧
+    M.vars (.multi [.leaf lPy, .leaf lSys]) = ["python_version", "sys_platform"] := by
+  refine ⟨rfl, rfl, rfl, by rfl, by rfl, rfl⟩
+
+def C17_only_mentions_full_statement : Prop :=
+  ∀ (text : String) (S : List String) (m r : M), parseMarker text = .ok m → M.only S m = .ok r →
+    ∀ n ∈ M.vars r, n ∈ S
+
+def C17_only_weakens_full_statement : Prop :=
+  ∀ (text : String) (S : List String) (m r : M) (E : Env), parseMarker text = .ok m → M.only S m = .ok r →
+    Evaluates E m → Evaluates E r → M.validate E m = .ok true → M.validate E r = .ok true
+
+/-! ## `exclude`, `without_extras` -/
+
+/-- **removing the clauses about one variable from a conjunction of single-variable clauses leaves exactly
+the conjunction of the others** (given C07's `intersection` soundness). -/
+theorem exclude_conj_partial (ev : Leaf → Bool) (hI : InterSound ev) (x : String) (ms : List M)
+    (hl : allLeaves ms = true) (r : M) (h : M.exclude x (.multi ms) = .ok r) :
+    M.sem ev r = semAllExcept ev x ms :=
+  exclude_conj_aux ev x hI ms hl r h
+
+/-- the clauses that survive are computed without the simplifier: exactly the members on other variables -/
+theorem exclude_members (ev : Leaf → Bool) (x : String) (ms : List M) (hl : allLeaves ms = true) :
+    ∃ xs, M.excludeList x ms = .ok xs ∧ allLeaves xs = true ∧ M.semAll ev xs = semAllExcept ev x ms :=
+  excludeList_leaves ev x ms hl
+
+/-- `without_extras` is `exclude("extra")` -/
+theorem without_extras_eq (m : M) : M.withoutExtras m = M.exclude "extra" m := rfl
+
+example : allLeaves [.leaf lPy, .leaf lExtra, .leaf lSys] = true ∧
+    M.excludeList "extra" [.leaf lPy, .leaf lExtra, .leaf lSys] = .ok [.leaf lPy, .leaf lSys] ∧
+    semAllExcept (evalLeaf exEnv) "extra" [.leaf lPy, .leaf lExtra, .leaf lSys] = false ∧
+    semAllExcept (evalLeaf exEnv) "sys_platform" [.leaf lPy, .leaf lExtra, .leaf lSys] = true := by
+  refine ⟨rfl, rfl, by decide, by decide⟩
+
+def C17_exclude_conj_full_statement : Prop :=
+  ∀ (E : Env) (x : String) (ms : List M) (r : M), allLeaves ms = true →
+    Evaluates E (.multi ms) → Evaluates E r →
+    M.exclude x (.multi ms) = .ok r → M.validate E r = .ok (semAllExcept (evalLeaf E) x ms)
+
+/-! ## `reduce_by_python_constraint` -/
+
+/-- **reduction by a Python range is exact on every environment whose interpreter lies in the range**:
+structural induction over `reduce_by_python_constraint`, including the `MarkerUnion` shortcut and the three
+answers of `SingleMarker.reduce_by_python_constraint`.  `ReduceCtx ev pc py` collects, at the environment
+under consideration (leaf truth `ev`, interpreter `py`, `pc.allows py`), what is used from C07 (`of`,
+`intersect` soundness), C11 (`pyConstraint_exact` for leaves and python-only markers, `createNested_exact`
+through `parse_marker`) and C12 (`allows_all` yes / `allows_any` no soundness at `py`). -/
+theorem reduce_exact_partial (ev : Leaf → Bool) (pc : VC) (py : Version) (C : ReduceCtx ev pc py)
+    (m r : M) (h : M.reduce pc m = .ok r) : M.sem ev r = M.sem ev m :=
+  reduce_exact_aux C m r h
+
+/-- a leaf on another variable is returned unchanged, whatever the range -/
+example (pc : VC) : M.reduce pc (.leaf lSys) = .ok (.leaf lSys) := rfl
+
+def pyOf (X Y Z : Nat) : Version := Version.mk' 0 [X, Y, Z] none none none none
+
+def C17_reduce_exact_full_statement : Prop :=
+  ∀ (text : String) (m r : M) (pc : VC) (E : Env) (X Y Z : Nat), parseMarker text = .ok m →
+    E.get? "python_full_version" = some (pyOf X Y Z).text →
+    E.get? "python_version" = some (Version.relText [X, Y]) →
+    pc.allows (pyOf X Y Z) = .ok true → M.reduce pc m = .ok r →
+    Evaluates E m → Evaluates E r → M.validate E r = M.validate E m
+
 end Poetry.C17
